@@ -78,7 +78,7 @@ def _parse(out, res):
         res.violation = "postcondition"
     elif "Error:" in out:
         i = out.index("Error:")
-        res.error = out[i:i + 3000]
+        res.error = out[max(0, i - 1500):i + 3000] if "Parsing or semantic analysis failed" in out else out[i:i + 3000]
     # ASSUME failures
     if res.error is None and re.search(r"Assumption line \d+.* is false", out):
         res.error = re.search(r"Assumption line \d+.*", out).group(0)
